@@ -89,14 +89,14 @@ var propSpecs = []PropSpec{
 	},
 	{
 		ID:          "C12",
-		Rules:       []string{"C12.TBL", "C12.KEYS", "C12.MAP", "C12.CASE", "C11.VISIT"},
+		Rules:       []string{"C12.TBL", "C12.KEYS", "C12.MAP", "C12.CASE", "C11.VISIT", "C11.SCAN"},
 		Explanation: "The space (34 workflow keys x 12 contexts x 5 special functions) is finite and enumerated completely from the literals: (TBL) the switch of WorkflowKeyAvailability, SpecialFunctionNames and allWorkflowKeys agree pairwise in both directions, every entry is lower-case and every context exists; (KEYS) the set of constant strings that can reach a workflowKey parameter (constant propagation through concatenation and all call sites) contains only \"\" and table keys, and every table key is used; (MAP) at every call site of RuleExpression with a constant key, the AST field handed over has a YAML path whose governing table key (longest table key that prefixes the path) has the same availability as the key passed; (CASE) names are lower-cased before being compared with the lists.",
 		NotDecided:  "agreement with GitHub's live table (not available offline: the generated table is checked for internal consistency and use); positions inside the expression where the name occurs are decided under C11.VISIT",
 		Assumptions: commonAssumptions,
 	},
 	{
 		ID:          "C11",
-		Rules:       []string{"C11.VISIT", "C11.SITE", "C11.PAIR", "C11.ORDER", "C11.SAFE", "C11.RESET", "C08.KEYR"},
+		Rules:       []string{"C11.VISIT", "C11.SITE", "C11.PAIR", "C11.ORDER", "C11.SAFE", "C11.RESET", "C08.KEYR", "C11.SCAN"},
 		Explanation: "Decides the traversal and wiring clauses of the detector: (VISIT) in every function of the semantic checker (and in visitExprNode) that receives a concrete expression node, a forward must-analysis over the CFG shows that on every path to a return the node is handed on whole, or each ExprNode child is handed to a checking function, or a diagnostic was emitted - so an untrusted read is seen wherever it is embedded; (SITE) checkUntrusted=true only flows from checkScriptString, which is applied to ExecRun.Run and to a with: value guarded by the actions/github-script@ prefix and the key script; (PAIR) enter callback then deferred leave first in check, Init/walk/OnVisitEnd/Errs in order; (ORDER) index before operand in both traversals; (SAFE) sanitisers are exactly contains/startsWith/endsWith compared in lower case and the tree's names are lower-case; (RESET) end() and Init() reset on every path; (KEYR, shared with C08) the tree is looked up with lower-cased names.",
 		NotDecided:  "the state machine of the matcher itself (which paths are reported for which chains): completeness/precision over all expression shapes is a semantic property of onPropAccess/onIndexAccess/onObjectFilter",
 		Assumptions: commonAssumptions,
